@@ -367,3 +367,33 @@ def lean_item(name: str, typ: str, value: str | None) -> str:
     if value is None:
         return f"def {name} : {typ} := {sentinel}   -- NOT FOUND in the current source\ndef {name}_found : Bool := false"
     return f"def {name} : {typ} := {value}\ndef {name}_found : Bool := true"
+
+
+def at_exit(fn, *args) -> None:
+    """run fn(*args) when this process ends - also in multiprocessing pool workers, which never run `atexit` handlers
+    (they leave through multiprocessing's own exit function, which runs `util.Finalize` callbacks)"""
+    import atexit
+    import multiprocessing.util as mpu
+
+    done = []
+
+    def once():
+        if not done:
+            done.append(1)
+            try:
+                fn(*args)
+            except Exception:  # noqa: BLE001
+                pass
+
+    atexit.register(once)
+    mpu.Finalize(None, once, exitpriority=5)
+
+
+def mkdtemp(prefix: str) -> str:
+    """a scratch directory under the system temp dir that is removed when the process (worker or main) ends"""
+    import shutil
+    import tempfile
+
+    d = tempfile.mkdtemp(prefix=prefix)
+    at_exit(shutil.rmtree, d, True)
+    return d
